@@ -322,7 +322,7 @@ func checkOperationDedup(c *Ctx, gen *packages.Package) {
 // different source, and records it otherwise; write returns that error.
 func checkCollisionDetection(c *Ctx, gen *packages.Package) {
 	rule := "C08.R4.collision-detection"
-	c.Rule(rule, "GenOpts.write refuses to generate a target file that was already generated from a differently named spec object", 5)
+	c.Rule(rule, "GenOpts.write refuses to generate a target file that was already generated from a differently named spec object", 6)
 	info := gen.TypesInfo
 	fd := load.FuncDecl(gen, "GenOpts.write")
 	if fd == nil {
@@ -384,6 +384,47 @@ func checkCollisionDetection(c *Ctx, gen *packages.Package) {
 		}
 		return true
 	})
+	// … and by their own name whatever else they carry: a first-non-empty scan over field names
+	// must not let the package alias stand in for the name
+	aliasFirst := false
+	ast.Inspect(detector.Body, func(n ast.Node) bool {
+		rs, ok := n.(*ast.RangeStmt)
+		if !ok {
+			return true
+		}
+		cl, ok := ast.Unparen(rs.X).(*ast.CompositeLit)
+		if !ok {
+			return true
+		}
+		var names []string
+		for _, e := range cl.Elts {
+			if sv, ok := goan.StringVal(gen.TypesInfo, e); ok {
+				names = append(names, sv)
+			}
+		}
+		hasBreak := false
+		ast.Inspect(rs.Body, func(m ast.Node) bool {
+			if b, ok := m.(*ast.BranchStmt); ok && b.Tok == token.BREAK {
+				hasBreak = true
+			}
+			return true
+		})
+		ia, in := -1, -1
+		for i, nm := range names {
+			if nm == "PackageAlias" {
+				ia = i
+			}
+			if nm == "Name" {
+				in = i
+			}
+		}
+		if hasBreak && ia >= 0 && (in < 0 || ia < in) {
+			aliasFirst = true
+		}
+		return true
+	})
+	c.Check(!aliasFirst, rule, "generator."+load.FuncName(detector)+" › objects identified by their own name", c.posOf(gen, detector.Pos()), "the package alias qualifies the name, it does not replace it",
+		"the collision check takes the first non-empty of a field list in which PackageAlias precedes Name: every operation of one package has the same identity, so two operation ids mangled to one file overwrite each other again")
 	c.Check(bySpecName, rule, "generator."+load.FuncName(detector)+" › objects identified by their spec name", c.posOf(gen, detector.Pos()), "reads the OriginalName field",
 		"the collision check identifies objects by their Go name only: two definitions carrying the same x-go-name look like one object and overwrite each other silently")
 	c.Check(returned, rule, "generator.GenOpts.write › collision error is returned", c.posOf(gen, callPos), "if err := …; err != nil { return err }", "the error of the collision check is not returned: generation goes on and overwrites the file")
